@@ -170,6 +170,7 @@ def build(chk):
                 fns[i] = (chk.M.function('Linear', chk.M.linear(terms, k)), SymFn([([j], c) for j, c in terms] + [([], k)]))
             x0 = dom(P, 'x0')
             st = B.state([(0, x0)] if base_present else [])
+            st0 = B.state([(0, x0)] if base_present else [])   # snapshot for the witness (eval_dependencies mutates st)
             deps = RMap('hash', False, [[i, fns[i][0]] for i in dep_ids])
             # oracle: values by recursion over the concrete graph
             val, state = {}, {}
@@ -202,7 +203,7 @@ def build(chk):
 
             def witness(model):
                 dd = {str(i): chk.hexmsg(fns[i][0], MSGF, model) for i in dep_ids}
-                case = {'op': 'eval_dependencies_via_instance', 'deps': dd, 'state': chk.hexmsg(st, MSGS, model), 'ids': dep_ids}
+                case = {'op': 'eval_dependencies_via_instance', 'deps': dd, 'state': chk.hexmsg(st0, MSGS, model), 'ids': dep_ids}
                 wv = None if not solvable else {i: float(valconv.fv_to_fraction(FV('fin', wants[i]), model)) for i in dep_ids}
 
                 def judge(res):
